@@ -10,6 +10,7 @@ package main
 
 import (
 	"bytes"
+	"context"
 	"flag"
 	"fmt"
 	"sort"
@@ -784,7 +785,29 @@ func runChaos(e *env, idx int, r *core.Rand) {
 		if i%3 == 2 {
 			sess = l.B // server-initiated call
 		}
-		m.call(sess, fmt.Sprintf("call %d", i), e.routes["echo"], []byte(fmt.Sprintf("c%d", i)), &outs[i], erpc.WithBodyCodec(codec.ID_PLAIN))
+		settings := []erpc.MessageSetting{erpc.WithBodyCodec(codec.ID_PLAIN)}
+		label := fmt.Sprintf("call %d", i)
+		// some calls are issued with a context that is already over (cancelled / deadline passed) or has a far deadline:
+		// they complete exactly once like every other call
+		switch r.Intn(6) {
+		case 0:
+			cctx, cancel := context.WithCancel(context.Background())
+			cancel()
+			settings = append(settings, erpc.WithContext(cctx))
+			label += " (context cancelled)"
+			core.Add("calls_with_dead_context", 1)
+		case 1:
+			dctx, cancel := context.WithDeadline(context.Background(), time.Now().Add(-time.Second))
+			defer cancel()
+			settings = append(settings, erpc.WithContext(dctx))
+			label += " (context deadline passed)"
+			core.Add("calls_with_dead_context", 1)
+		case 2:
+			fctx, cancel := context.WithTimeout(context.Background(), time.Hour)
+			defer cancel()
+			settings = append(settings, erpc.WithContext(fctx))
+		}
+		m.call(sess, label, e.routes["echo"], []byte(fmt.Sprintf("c%d", i)), &outs[i], settings...)
 	}
 	if after == ncalls {
 		closers = append(closers, act(action, l, m, e, nil)...)
